@@ -237,6 +237,30 @@ func jpCells(prog *Program, evaluators []string) ([]jpCell, error) {
 						addCell(cc2, cont, contVar)
 					}
 				}
+				// the statements of the fragment's case before its first container test: defaults and the unpacking of
+				// the fragment (start, end, step of a slice), shared by all containers - a cell of its own
+				first := token.NoPos
+				for _, cs := range css {
+					if first == token.NoPos || cs.Pos() < first {
+						first = cs.Pos()
+					}
+				}
+				for _, ic := range ifCells {
+					if first == token.NoPos || ic.Pos() < first {
+						first = ic.Pos()
+					}
+				}
+				if first != token.NoPos {
+					var pre []ast.Stmt
+					for _, st := range cc.Body {
+						if st.End() <= first {
+							pre = append(pre, st)
+						}
+					}
+					if len(pre) > 0 {
+						addCell(&ast.CaseClause{Case: pre[0].Pos(), Body: pre}, "preamble", "")
+					}
+				}
 				ifSeen := map[string]int{}
 				for i, ic := range ifCells {
 					name := types.ExprString(ic.List[0])
@@ -493,7 +517,7 @@ func arithFingerprint(prog *Program, pk *packages.Package, node ast.Node, contVa
 						o = info.Defs[id]
 					}
 					if v, ok := o.(*types.Var); ok {
-						if b, isB := v.Type().Underlying().(*types.Basic); isB && b.Info()&types.IsInteger != 0 && (intOnly(x.Rhs[0]) || (x.Tok == token.ASSIGN && constInt(x.Rhs[0]))) {
+						if b, isB := v.Type().Underlying().(*types.Basic); isB && b.Info()&types.IsInteger != 0 && (intOnly(x.Rhs[0]) || (x.Tok == token.ASSIGN && constInt(x.Rhs[0])) || (x.Tok == token.DEFINE && namedOrNegConst(info, x.Rhs[0]))) {
 							add("", x) // also a clamp to a constant (i = 0): it changes which index is selected
 						}
 						if b, isB := v.Type().Underlying().(*types.Basic); isB && b.Info()&types.IsBoolean != 0 {
@@ -577,4 +601,20 @@ func arithFingerprint(prog *Program, pk *packages.Package, node ast.Node, contVa
 	}
 	sort.Strings(out)
 	return out
+}
+
+// namedOrNegConst: a default given as a named constant or a negative literal (end := maxEnd, end := -1): which
+// of the two a copy starts from decides what an open-ended slice selects.
+func namedOrNegConst(info *types.Info, e ast.Expr) bool {
+	switch x := ast.Unparen(e).(type) {
+	case *ast.Ident:
+		_, ok := info.Uses[x].(*types.Const)
+		return ok && x.Name != "true" && x.Name != "false" && x.Name != "iota"
+	case *ast.UnaryExpr:
+		if x.Op == token.SUB {
+			_, ok := x.X.(*ast.BasicLit)
+			return ok
+		}
+	}
+	return false
 }
